@@ -232,6 +232,15 @@ T = [
     ("c20_step_result_before_span_closed", "C20/R2", B,
      "        let result = run.then_yield().await;\n\n        #[cfg(feature = \"tracing\")]\n        if let Some((waiter, id)) = waiter.zip(span_id) {",
      "        let result = run.then_yield().await;\n\n        #[cfg(feature = \"tracing\")]\n        if let Some((waiter, id)) = waiter.zip(span_id).filter(|_| is_background) {"),
+    ("c20_step_waits_for_other_span", "C20/R2", B,
+     "            let span = scenario_id.step_span(is_background);\n            let span_id = span.id();",
+     "            let span = scenario_id.step_span(is_background);\n            let span_id = scenario_id.scenario_span().id();"),
+    ("c20_after_hook_wait_not_awaited", "C20/R2", B,
+     "                waiter.wait_for_span_close(id).then_yield().await;\n            }\n\n            let finished = event::Metadata::new(());",
+     "                drop(waiter.wait_for_span_close(id));\n            }\n\n            let finished = event::Metadata::new(());"),
+    ("c20_step_polled_uninstrumented", "C20/R1", B,
+     "            let run = tracing::Instrument::instrument(run, span);\n            (run, span_id)",
+     "            let run = tracing::Instrument::instrument(async {}, span).then(|()| run);\n            (run, span_id)"),
     ("c20_attempt_span_for_fresh_id", "C20/R1", B,
      "            let span = id.scenario_span();", "            let span = ScenarioId::new().scenario_span();"),
     ("c20_finish_wrong_scenario", "C20/R3", B,
